@@ -98,6 +98,7 @@ def gen_wait_consts():
 # ------------------------------------------------------------------------------------------------
 SWITCHES = [("d_timeout0_falsy", "D18"), ("d_leak_legacy", "D19"), ("d_leak_dm", "D150"), ("d_now_restarts", "D151"),
             ("d_badexpr_leak", "D152"), ("d_none_eager", "D153"), ("d_hold_latest", "D154"), ("d_hold_attr_cancels", "D155")]
+HFS = [0, 500, 1500, 2500]
 OFFS = [250, 1250, 2250, 3250, 5250, -1000, -2750]
 TIMEOUTS = [0, 0, 500, 1500, 2500, 4500, 6500]
 HOLDS = [750, 1750, 2750]
@@ -110,15 +111,15 @@ def _tail(case):
     return max([o for o in (case.get("tt") or [])] + [st.get("hold") or 0, case.get("to") or 0, 0]) + 1000
 
 
-def _mk(sub, st=None, tt=None, ev=None, to=None, pre=None, hist=None, cancel=None, how="cancel", badexpr=None):
+def _mk(sub, st=None, tt=None, ev=None, to=None, pre=None, hist=None, cancel=None, how="cancel", badexpr=None, others=None):
     c = {"sub": sub, "st": st, "tt": tt, "ev": ev, "to": to, "badexpr": badexpr, "pre": pre or [], "hist": hist or [],
-         "cancel": cancel, "how": how}
+         "cancel": cancel, "how": how, "others": others or []}
     c["tail"] = _tail(c)
     return c
 
 
-def _st(cn, init, hold=None):
-    return {"cn": cn, "init": init, "hold": hold}
+def _st(cn, init, hold=None, hf=None):
+    return {"cn": cn, "init": init, "hold": hold, "hf": hf}
 
 
 def _cn_eff(st):
@@ -130,11 +131,14 @@ def _rand_case(rng):
     st = None
     if rng.random() < 0.7:
         st = _st(rng.choice([None, None, True, False]), rng.choice(["T", "T", "F", "F", "F", "X"]),
-                 rng.choice([None, None, None] + HOLDS))
+                 rng.choice([None, None, None] + HOLDS), rng.choice(HFS) if rng.random() < 0.35 else None)
     tt = None
     if rng.random() < 0.45:
         tt = [rng.choice(OFFS) for _ in range(rng.choice([1, 1, 2, 3]))]
     ev = {"filter": rng.random() < 0.6} if rng.random() < 0.5 else None
+    others = None
+    if ev is not None and rng.random() < 0.3:
+        others = [o for o in ("wmut", "w2", "fnkw") if rng.random() < 0.6] or ["wmut"]
     to = rng.choice(TIMEOUTS) if rng.random() < 0.45 else None
     badexpr = None
     if rng.random() < 0.05 and (st is None or st["cn"] is False):
@@ -157,7 +161,8 @@ def _rand_case(rng):
         t += 1000 * rng.choice([0, 1, 1, 2])
     hist = []
     t = 0
-    hold = st is not None and st["hold"] is not None
+    hold = st is not None and (st["hold"] is not None or st["hf"] is not None)
+    hf = st is not None and st["hf"] is not None
     for _ in range(rng.choice([0, 1, 2, 3, 4, 5, 6, 8])):
         # whole seconds, or (state_hold cases) 400/600 ms after one: several changes inside one hold period
         if hold and rng.random() < 0.5:
@@ -165,7 +170,9 @@ def _rand_case(rng):
         else:
             t = (t // 1000) * 1000 + 1000 * rng.choice([1, 1, 1, 2, 2, 3])
         k = rng.choice(kinds)
-        if hold and k in ("F", "X", "I") and rng.random() < 0.6:
+        if hf and k in ("X", "I", "U", "O") and rng.random() < 0.7:
+            k = rng.choice(["T", "F"])   # state_hold_false cases: several false/true alternations with short and long periods
+        elif hold and not hf and k in ("F", "X", "I") and rng.random() < 0.6:
             k = "T"          # state_hold cases: mostly still-true changes (true, true', true'' with different values)
         hist.append([t, k])
     cancel = None
@@ -173,7 +180,7 @@ def _rand_case(rng):
     if rng.random() < 0.35:
         cancel = rng.choice([0] + [125 + 250 * i for i in range(0, (t + 3000) // 250)])
         how = rng.choice(["cancel", "unique"])
-    return _mk(sub, st, tt, ev, to, pre, hist, cancel, how, badexpr)
+    return _mk(sub, st, tt, ev, to, pre, hist, cancel, how, badexpr, others)
 
 
 def _occ(case, k, kind):
@@ -204,7 +211,10 @@ class WaitStream(Stream):
             "before the call vs at the first grid point after the task ended; both subsystems; state_hold cases also have "
             "occurrences 0.4/0.6 s after a whole second: several still-true changes with different values, attribute-only updates "
             "and true->false->true sequences inside one hold period, with and without timeout; non-trivial = something "
-            "qualifying or a cancellation after the call; distinct by case")
+            "qualifying or a cancellation after the call; state_hold_false (0/0.5/1.5/2.5 s) cases have several false/true "
+            "alternations with short and long false periods, combined with state_hold and timeout; cases with 1-3 concurrent "
+            "listeners of the awaited event type (a waiter editing its dict, a filtered waiter clearing it, an @event_trigger "
+            "function with kwargs=) check every listener's dict exactly, twice; distinct by case")
     requires = "From PV Require Import Trig.WaitUntil Trig.WaitUntilCheck."
     case_type = "wcase"
     check_model = "wcase_model_ok pv_cfg"
@@ -214,7 +224,7 @@ class WaitStream(Stream):
     shard_size = 150
 
     def budget(self, tier):
-        return 900 if tier == "quick" else 9000
+        return 1100 if tier == "quick" else 9000
 
     def prelude(self, ctx, findings, witness_terms):
         return cfg_prelude(SWITCHES, findings, witness_terms, "wcase_spec_ok")
@@ -256,6 +266,23 @@ class WaitStream(Stream):
                     cases.append(_mk(sub, _st(cn, init, 2750), None, None, to, [], [[1000, "T"], [1400, "F"], [1600, "T"], [2000, "T"]]))
                     cases.append(_mk(sub, _st(cn, init, 1750), None, {"filter": True}, to, [], [[1000, "T"], [1600, "T"], [2000, "E0"], [2400, "T"]]))
                     cases.append(_mk(sub, _st(cn, init, 2750), None, None, to, [], [[1000, "T"], [2000, "I"], [2400, "T"]]))
+            # state_hold_false x state_hold x timeout: short and long false periods, a cancelled hold followed by a quick true
+            hh = [[[1600, "T"], [2000, "F"], [2400, "T"], [4000, "F"], [5600, "T"]],
+                  [[1000, "F"], [1400, "T"], [2000, "T"], [2600, "F"], [3000, "F"], [4600, "T"], [5000, "I"]]]
+            for cn in (None, False):
+                for init in ("T", "F"):
+                    for hf in (0, 1500):
+                        for hold in (None, 1750):
+                            for to in (None, 6500):
+                                cases.append(_mk(sub, _st(cn, init, hold, hf), None, None, to, [], hh[len(cases) % 2]))
+            cases.append(_mk(sub, _st(None, "F", 1750, 1500), None, None, 6500, [], [[1600, "T"], [2000, "F"], [2400, "T"]]))
+            cases.append(_mk(sub, _st(None, "X", None, 500), None, None, None, [], [[1000, "T"]]))
+            cases.append(_mk(sub, _st(False, "X", None, 500), None, None, None, [], [[1000, "T"]]))
+            # 2-3 concurrent listeners of the awaited event type
+            for others in (["wmut"], ["fnkw"], ["wmut", "w2", "fnkw"]):
+                for flt in (False, True):
+                    cases.append(_mk(sub, None, None, {"filter": flt}, None, [[-1000, "E1"]], [[1000, "E0"], [2000, "E1"], [3000, "E1"]], others=others))
+                cases.append(_mk(sub, None, None, {"filter": True}, 2500, [], [[1000, "E0"]], 1125, others=others))
             # exceptions in a condition
             cases.append(_mk(sub, _st(None, "X"), None, {"filter": True}, None, [], h_event))
             cases.append(_mk(sub, _st(None, "F"), None, {"filter": True}, 2500, [], [[1000, "X"]]))
@@ -277,14 +304,16 @@ class WaitStream(Stream):
 
     def to_coq(self, case, obs):
         st = case.get("st")
-        args = ("{| a_state := %s; a_cn := %s; a_hold := %s; a_times := %s; a_event := %s; a_timeout := %s; a_badexpr := %s |}" % (
+        args = ("{| a_state := %s; a_cn := %s; a_hold := %s; a_hf := %s; a_times := %s; a_event := %s; a_timeout := %s; "
+                "a_badexpr := %s; a_shared := %s |}" % (
             q.boolean(st is not None),
             q.option(None if (st is None or st.get("cn") is None) else q.boolean(st["cn"])),
             q.option(None if (st is None or st.get("hold") is None) else q.Z(st["hold"])),
+            q.option(None if (st is None or st.get("hf") is None) else q.Z(st["hf"])),
             q.option(None if case.get("tt") is None else q.lst(q.Z(o) for o in case["tt"])),
             q.boolean(case.get("ev") is not None),
             q.option(None if case.get("to") is None else q.Z(case["to"])),
-            q.boolean(bool(case.get("badexpr")))))
+            q.boolean(bool(case.get("badexpr"))), q.boolean(bool(case.get("others")))))
         k = 0
         pre = []
         for t, kind in case.get("pre") or []:
@@ -337,6 +366,10 @@ class WaitStream(Stream):
 
     def kind(self, case, obs):
         parts = [case["sub"]]
+        if case.get("others"):
+            parts.append("conc")
+        if (case.get("st") or {}).get("hf") is not None:
+            parts.append("hf")
         for key in ("st", "tt", "ev"):
             if case.get(key) is not None:
                 parts.append(key)
@@ -371,9 +404,8 @@ class C15(Prop):
         "no two candidates at the same instant in generated cases (the Spec lets a fixed instant win a tie)",
         "no other pyscript listener on the awaited event type (the legacy bus listener is shared per event type)",
     ]
-    partial_note = ("state_hold_false, mqtt/webhook deliveries, 'any change' state names and cron/period time specifications are not "
-                    "modelled here (state_hold_false/any-change timing: C05; mqtt/webhook delivery: C08; time specifications: C06); "
-                    "with state_hold only alternating histories are tied to the code")
+    partial_note = ("mqtt/webhook deliveries, 'any change' state names and cron/period time specifications are not modelled here "
+                    "(any-change timing: C05; mqtt/webhook delivery: C08; time specifications: C06)")
 
     def translate(self, ctx):
         return {"Gen/WaitConsts.v": gen_wait_consts()}
